@@ -198,6 +198,11 @@ def execute(case):
     classes = ["verb:" + verb, "clauses:%d" % n,
                "defect" if case.get("defect") else "valid",
                "perms:all" if case.get("perm_seed") is None else "perms:sampled"]
+    # clauses that end in an optional word (`of frame [name]`, `of framer [name]`, `of actor [name]`,
+    # `in frame [name]`) are the ones a following clause keyword can be absorbed into
+    if any(c[1].split()[-2:] in (["of", "frame"], ["of", "framer"], ["of", "actor"], ["in", "frame"])
+           for c in case["clauses"]):
+        classes.append("open-ended-clause")
     for o in info["outcomes"]:
         classes.append(("defect->" if case.get("defect") else "valid->") + o)
     if info.get("skipped"):
@@ -215,7 +220,7 @@ def plan(tier):
 
 def work(shard, seed, tier):
     acc = Acc()
-    n = 24 if tier == "quick" else 320
+    n = 40 if tier == "quick" else 320
     campaign(acc, command_case(), execute, n, seed * 1000 + shard["i"],
              budget=Budget(240 if tier == "quick" else 1500), shrink_examples=60)
     return acc
